@@ -249,7 +249,7 @@ func (p *exprParser) parseCmp() (Expr, error) {
 				return nil, err
 			}
 			// chained comparisons a <= b <= c mean a <= b && b <= c
-			if lb, ok := l.(EBinary); ok && isCmpOp(lb.Op) {
+			if lb, ok := l.(EBinary); ok && isOrderOp(lb.Op) && isOrderOp(t.s) {
 				l = EBinary{"&&", l, EBinary{t.s, lb.Y, r}}
 			} else {
 				l = EBinary{t.s, l, r}
@@ -258,6 +258,14 @@ func (p *exprParser) parseCmp() (Expr, error) {
 		}
 		return l, nil
 	}
+}
+
+func isOrderOp(op string) bool {
+	switch op {
+	case "<", "<=", ">", ">=":
+		return true
+	}
+	return false
 }
 
 func isCmpOp(op string) bool {
